@@ -47,12 +47,19 @@ fn bytes_verdict(n: u64, got: &str, kilo: u128, prefixes: &[&str]) -> String {
     "ok".into()
 }
 
+/// a sink that accepts `n` pieces and then fails
+struct FailingSink(usize);
+impl std::fmt::Write for FailingSink { fn write_str(&mut self, _: &str) -> std::fmt::Result { if self.0 == 0 { Err(std::fmt::Error) } else { self.0 -= 1; Ok(()) } } }
+/// a sink that formats a count of its own while it is written to
+struct NestingSink(String);
+impl std::fmt::Write for NestingSink { fn write_str(&mut self, s: &str) -> std::fmt::Result { let inner = format!("{}", HumanCount(s.len() as u64 + 1000)); self.0.push_str(&inner); self.0.push_str(s); Ok(()) } }
+
 pub fn run(seed: u64, tier: &str, out: &mut Out) {
     let mut rng = Rng::new(seed);
     // HumanFloatCount: finite / infinite / NaN / negative values, precisions 0..=25 and the default
     {
         let mut xs: Vec<f64> = vec![0.0, -0.0, 0.5, -0.5, 1.5, 2.5, 0.05, 0.005, 999.5, 999.9995, 999.99995, 1234.7, -123.0, -123456.5, 1e3, 1e6 - 0.5,
-            1e15, 1e21, 1e22, 123456789.125, f64::MAX, f64::MIN, f64::MIN_POSITIVE, 5e-324, f64::INFINITY, f64::NEG_INFINITY, f64::NAN, -f64::NAN, 0.1 + 0.2, 1.0 / 3.0];
+            1e15, 1e21, 1e22, 123456789.125, 9007199254740992.0, 9007199254740993.0, 9223372036854775808.0, 18446744073709551616.0, 18446744073709549568.0, 18446744073709555712.0, u64::MAX as f64, (1u128 << 100) as f64, f64::MAX, f64::MIN, f64::MIN_POSITIVE, 5e-324, f64::INFINITY, f64::NEG_INFINITY, f64::NAN, -f64::NAN, 0.1 + 0.2, 1.0 / 3.0];
         let nr = if tier == "thorough" { 400_000 } else { 6_000 };
         for i in 0..nr {
             xs.push(match i % 5 {
@@ -66,6 +73,9 @@ pub fn run(seed: u64, tier: &str, out: &mut Out) {
         for (i, x) in xs.iter().enumerate() {
             let prec: Option<usize> = if i % 7 == 0 { None } else { Some(*rng.pick(&[0usize, 0, 1, 2, 3, 4, 6, 10, 17, 25])) };
             let x = *x;
+            // every few values a formatting into a sink that fails half-way comes first: whatever that attempt left behind must not
+            // show in the next result (the formatters are stateless), and a sink that formats a count itself must be possible
+            if i % 11 == 3 { let _ = std::panic::catch_unwind(move || { use std::fmt::Write as _; let mut s = FailingSink(2); let _ = write!(s, "{:.2}", HumanFloatCount(-7654.321)); let mut s = FailingSink(1); let _ = write!(s, "{}", HumanCount(1_234_567)); let mut n = NestingSink(String::new()); let _ = write!(n, "{}", HumanCount(7_000)); }); }
             let got = std::panic::catch_unwind(move || match prec { Some(p) => format!("{:.*}", p, HumanFloatCount(x)), None => format!("{}", HumanFloatCount(x)) });
             let p = prec.unwrap_or(4);
             let (obs, v) = match got {
